@@ -53,7 +53,7 @@ def run_case(ck, paths, idx, big, paths_huge=None):
     rng = ck.rng.__class__(ck.seed * 86028121 + idx)
     kind, shape, recs = gen_case(rng, big)
     word = rng.choice(kal.ADMISSIBLE[kind])
-    nt = rng.choice([1, 4, 16]) if big != "huge" else rng.choice([3, 5, 7, 8, 16])
+    nt = rng.choice([1, 4, 16, 16, 48, 64]) if big != "huge" else rng.choice([3, 5, 7, 8, 16])
     gp = rng.choice([(None, None, None), (None, None, None), (2.0, 1.0, 0.5), (0.0, 0.0, 0.0), (30.0, 5.0, 2.0)])
     log = ck.tmp(".log")
     env = {"KV_SNAP": "1", "KV_DELAY": rng.choice(["0:0", "200:200", "500:100"]), "VERIF_SEED": str(ck.seed + idx)}
